@@ -18,12 +18,14 @@ CONSTANTS Transitive,    \* repaired resolver: transitive Add, no re-adding (fix
           ExitFix,       \* Exit veto in an auto transition cancels, no panic (fix: C07)
           LoopFix,       \* handler loop restarted after a panic in an Exception tx (fix: C08)
           EndFix,        \* final-phase rollback also from a failing End handler (fix: C08)
+          AutoFaultFix,  \* a panic in a negotiation handler cancels a partially accepted
+                         \* auto transition too (fix: C08)
           OrderedAuto,   \* auto mutation calls states in index order (fix: C11)
           OrderedTopo,   \* Require topology visits states in index order (fix: C11)
           QueueLimit
 
 Fx == [transitive |-> Transitive, toposort |-> TopoSort, exitfix |-> ExitFix,
-       loopfix |-> LoopFix, endfix |-> EndFix]
+       loopfix |-> LoopFix, endfix |-> EndFix, autofault |-> AutoFaultFix]
 
 TopoSet(s, i) == IF OrderedTopo THEN {TopoIndexOrder(s, i)} ELSE TopoChoices(s, i)
 
